@@ -238,6 +238,25 @@ def launchedEarly (connecting : Nat → Bool) (env : Env Net Pat IP) (pol : Poli
     (if w.pc i = .afterTrack ∧ connecting i = true then [i] else []) ++
       launchedEarly connecting env pol inp rs (step env pol inp rs w i) rest
 
+/-- the code with the overwrite `reg.Covert = covert` moved behind `AddRegistration`: up to and including the
+moment the entry is marked valid (and announced to the detector) the object still holds the client's raw
+string.  The worlds this step function produces are the ones a connection handler can observe between
+`register` and the late overwrite; kept to show that the model can tell the two orders apart. -/
+def stepLateOverwrite (env : Env Net Pat IP) (pol : Policy Net Pat) (inp : Inputs) (rs : Resolver IP) (w : World)
+    (i : Nat) : World :=
+  match w.pc i with
+  | .afterTrack =>
+    let r := parseOrResolve env pol (inp.ans i) rs w.cursor
+    if r.out = "" then { w with pc := updateAt w.pc i .done, cursor := r.cursor }
+    else if !inp.passes i then { w with pc := updateAt w.pc i .done, cursor := r.cursor }
+    else { w with pc := updateAt w.pc i .beforeRegister, cursor := r.cursor }
+  | _ => step env pol inp rs w i
+
+def runSchedLateOverwrite (env : Env Net Pat IP) (pol : Policy Net Pat) (inp : Inputs) (rs : Resolver IP) (w : World) :
+    List Nat → World
+  | [] => w
+  | i :: rest => runSchedLateOverwrite env pol inp rs (stepLateOverwrite env pol inp rs w i) rest
+
 /-- before any worker ran: every object holds its client's raw covert string, nothing is tracked -/
 def World.init (raw : Nat → String) (cursor : Nat) : World :=
   { covertOf := raw, pc := fun _ => .start, store := none, cursor := cursor }
